@@ -11,7 +11,8 @@
    notation.VerifyBlob, outcome.UserMetadata), every answer of the dependencies
    ([scenario]), every list of signatures of any length and every attempt limit (any Z).
    [wf] = the contracts of the injected components only (an in-process plugin / revocation
-   validator / caller-supplied Verifier that returns no error returns a usable value).
+   validator / caller-supplied Verifier that returns no error returns a usable value; the
+   policy documents are still as the constructor validated them).
    Crash-freedom of the third-party decoders on arbitrary bytes is NOT a theorem: it is
    explored by the harness (evidence keys "exploration_..."). *)
 From NV Require Import Base Regex Generated C12_Model C12_Proofs.
@@ -50,6 +51,7 @@ Print Assumptions C12_consistent_notation.
 
 (* SkipVerify: an error <-> no level; skip is reported exactly for the skip level, without error *)
 Theorem C12_consistent_skip_verify : forall v f l outs err,
+  sel_wf (v_oci v) = true ->
   skip_verify v = ORet f l outs err ->
   outs = [] /\ (err = None <-> l <> None) /\ (f = true <-> l = Some NSkip) /\ (f = true -> err = None).
 Proof. exact consistent_skip_verify. Qed.
@@ -132,7 +134,8 @@ Theorem C12_contracts_needed :
   model (i_base EVerify (v_strict (PMPlugin MetaNil)) VLib (sc_plugin (PResp true (Some true) (Some true)))) = OPanic /\
   model (i_base EVerify (v_strict (PMPlugin (Meta true [CapTI]))) VLib (sc_plugin PRNil)) = OPanic /\
   model (i_base EVerifyBlob (v_strict PMNil) VLib (sc_rev RevBadShape)) = OPanic /\
-  model (i_base ENVerifyBlob (v_strict PMNil) (VCustom None false) sc_good) = OPanic.
+  model (i_base ENVerifyBlob (v_strict PMNil) (VCustom None false) sc_good) = OPanic /\
+  model (i_base EVerify (mk_v (Some SelBadLevel) None PMNil) VLib sc_good) = OPanic.
 Proof. exact contracts_needed. Qed.
 Print Assumptions C12_contracts_needed.
 
